@@ -65,7 +65,12 @@ pub unsafe extern "C" fn munmap(addr: *mut libc::c_void, len: usize) -> i32 {
 #[no_mangle]
 pub unsafe extern "C" fn mprotect(addr: *mut libc::c_void, len: usize, prot: i32) -> i32 {
     let rec = RECORD.load(SeqCst) && (prot & libc::PROT_EXEC) != 0;
-    if !rec { return raw_mprotect(addr, len, prot); }
+    if !rec {
+        // a protection change WITHOUT execute permission: logged apart (kind 'x', never part of the compared trace: the C runtime makes
+        // such calls for thread stacks and arenas), so that the judge can see a page that holds code losing its execute permission
+        if RECORD.load(SeqCst) { push(Ev { kind: b'x', a: addr as u64, b: len as u64, ret: prot as i64, n: 0, content: [0; 32], tid: tid() }); }
+        return raw_mprotect(addr, len, prot);
+    }
     let n = MPROTECT_CALLS.fetch_add(1, SeqCst) + 1;
     let fail_at = MPROTECT_FAIL_AT.load(SeqCst);
     let r = if fail_at != 0 && n == fail_at { -1 } else { raw_mprotect(addr, len, prot) };
@@ -109,6 +114,7 @@ pub fn dump(from: usize, to: usize) -> String {
             b'M' => format!("MM {:x} {:x} {}", e.a, e.b, if e.ret < 0 { "-".to_string() } else { format!("{:x}", e.ret) }),
             b'U' => format!("MU {:x} {:x}", e.a, e.b),
             b'P' => format!("MP {:x} {:x} {}", e.a, e.b, if e.ret == 0 { 1 } else { 0 }),
+            b'x' => format!("MX {:x} {:x} {:x}", e.a, e.b, e.ret),
             _ => format!("F {:x} {:x} {}", e.a, e.b, hex(&e.content[..e.n as usize])),
         });
     }
